@@ -715,6 +715,9 @@ def run(ctx):
             from .. import extra_oracles2
             extra_oracles2.truncated_infinite_bound(ctx)
             extra_oracles2.kde_copy(ctx)
+            from .. import extra_oracles3
+            extra_oracles3.kde_late_binding(ctx)
+            extra_oracles3.truncated_bound_kinds(ctx)
             extra_oracles2.retention(ctx, ['GaussianKDE', "GaussianKDE(bw_method='silverman')", 'TruncatedGaussian', 'GaussianUnivariate', 'UniformUnivariate'])
         except Exception as ex:
             ctx.obligation('oracle:extra:raised', False, 'correspondence', repr(ex))
